@@ -11,8 +11,8 @@ fn main() {
          time windows, multi-place tasks, skills, groups, compatibility, order, limits, optional breaks, reloads incl. shared resources, open/closed shifts, \
          multi-shift, scale, asymmetric metric matrices, unreachable legs, custom objective lists) x seeded solver config (G2: population, hyper-heuristic, \
          operator groups from every config-schema operator, initial methods, termination, pools x threads) solved through read_config -> get_solution_serialized; \
-         a second phase re-solves with relations derived from a feasible tour. Oracle: O1 replays the solution JSON from the documents only. \
-         Non-trivial = at least one tour and (a hard rule binding with slack <= 1 unit, or a job unassigned); distinct by (problem shape, config shape, phase).",
+         a share of the cases is re-solved with relations derived from a feasible tour, another share with maxDistance / maxDuration / tourSize / shift end tightened to just below what a feasible solution uses (so that those rules bind). Oracle: O1 replays the solution JSON from the documents only. \
+         Non-trivial = at least one tour and (a hard rule binding: slack <= 1 unit, for distance / duration / shift end <= a tenth of the limit, or a job unassigned); distinct by (problem shape, config shape, phase).",
         75,
         600,
     );
@@ -31,5 +31,9 @@ fn main() {
         run.floor(&format!("rule '{rule}' evaluated"), run.observed("rule_evaluated", rule), 1);
     }
     run.floor("relation phase exercised", run.observed("phase", "relations"), 1);
+    run.floor("tightened-limits phase exercised", run.observed("phase", "tightened"), run.by_tier(5, 40));
+    for rule in ["capacity", "time-window", "max-distance", "max-duration", "tour-size", "shift-end"] {
+        run.floor(&format!("rule '{rule}' binding in a returned tour"), run.observed("rule_binding", rule), run.by_tier(2, 10));
+    }
     run.finish();
 }
